@@ -364,8 +364,10 @@ Definition comma_text_ok (s : bytes) : bool :=
 
 Definition elem_ok (k : kind) (a : atom) : bool :=
   match a with
+  | AStr [] => true    (* an empty line *)
   | AStr s => text_ok s && (match k with KComma => no_comma s | _ => true end)
-  | _ => false         (* list elements are strings, as Tor reports them *)
+  | AInt z => small_Z z   (* the integer style of the class docstring: conf.SOCKSPort = [9050, 1337]; 0 included *)
+  | _ => false
   end.
 
 Definition letters_only (s : bytes) : bool :=
@@ -511,7 +513,15 @@ Definition op_ok (opts : list (bytes * kind)) (o : op) : bool :=
       end
   end.
 
+(* names assigned before the attachment are option names, spelled as Tor spells them *)
+Definition pre_ok (opts : list (bytes * kind)) (pre : option (list (bytes * pyval))) : bool :=
+  match pre with
+  | None => true
+  | Some l => forallb (fun p : bytes * pyval => mem_bytes (fst p) (map fst opts)) l
+  end.
+
 Definition in_scope (i : cfg_input) : bool :=
   let opts := options (i_table i) in
   table_ok (i_table i) && store_ok (i_table i) (i_store i) && defaults_ok opts (i_defaults i)
+  && pre_ok opts (i_pre i)
   && forallb (op_ok opts) (i_ops i).
